@@ -840,7 +840,7 @@ impl CKBProtocolHandler for Relayer {
             Ok(msg) => {
                 let item = msg.to_enum();
                 if let packed::RelayMessageUnionReader::CompactBlock(ref reader) = item {
-                    if reader.count_extra_fields() > 1 {
+                    if crate::utils::compact_block_is_malformed(reader) {
                         info_target!(
                             crate::LOG_TARGET_RELAY,
                             "Peer {} sends us a malformed message: \
